@@ -36,8 +36,10 @@ ASSUMPTIONS = [
     'with pyrtl.Simulation',
     'exhaustive bounds: operand pairs <= 5 bits (quick) / 6 (thorough), operand triples <= 3 / 4 bits, '
     'sequential multipliers <= 3 / 5 bits; above that boundary + seeded random operand values',
-    'sequential multipliers: operands are held stable and start is low between two start pulses '
-    '(the protocol of the property); other stimuli are compared with the model only',
+    'sequential multipliers: arbitrary start/operand histories are driven (restart while busy, back-to-back '
+    'starts, start held high, operands changing mid-run); the specification is applied to every window in '
+    'which, after a start cycle, start stays low and the operands stay those presented with the start -- '
+    'whatever the unit was doing before; cycles outside such windows are compared with the model only',
     'direct calls of wallace_reducer/dada_reducer on arbitrary column profiles are compared with the '
     'model only (the property speaks about the adders/multipliers built on them)',
 ]
@@ -429,6 +431,42 @@ def protocol_stim(rng, wa, wb, ops, latency):
     return stim, marks
 
 
+def history_stim(rng, wa, wb, latency, nseg):
+    """an arbitrary start/operand HISTORY: start pulses (sometimes held high for several cycles,
+    with the operands of the last high cycle counting), followed by a stable stretch whose length is
+    drawn from {long enough to finish, shorter than the latency (the next start arrives while the
+    unit is busy), zero (back-to-back starts)}, sometimes followed by operands changing with start low"""
+    stim = []
+    for _ in range(nseg):
+        a = rng.choice([(1 << wa) - 1, (1 << (wa - 1)) | rng.getrandbits(wa), rng.getrandbits(wa),
+                        rng.getrandbits(wa), 1, 0])
+        b = rng.choice([(1 << wb) - 1, rng.getrandbits(wb), rng.getrandbits(wb), 1])
+        hold = 1 if rng.random() < 0.75 else rng.randint(2, 3)
+        for k in range(hold - 1):
+            stim.append((1, rng.getrandbits(wa), rng.getrandbits(wb)) if rng.random() < 0.5 else (1, a, b))
+        stim.append((1, a, b))
+        g = rng.choice([latency + rng.randint(0, 2), latency + rng.randint(0, 2),
+                        rng.randint(0, max(0, latency - 1)), rng.randint(1, max(1, latency // 2)), 0])
+        stim.extend([(0, a, b)] * g)
+        if rng.random() < 0.2:
+            stim.extend((0, rng.getrandbits(wa), rng.getrandbits(wb)) for _ in range(rng.randint(1, 2)))
+    return stim
+
+
+def protocol_windows(stim):
+    """every start cycle t0 together with the last cycle t_end up to which start stays low and the
+    operands stay what they were at t0 (the protocol of the property: operands held stable)"""
+    out = []
+    for t0, (s, a, b) in enumerate(stim):
+        if not s:
+            continue
+        t = t0
+        while t + 1 < len(stim) and stim[t + 1] == (0, a, b):
+            t += 1
+        out.append((t0, t, a, b))
+    return out
+
+
 def make_jobs(ctx):
     quick = ctx.tier == 'quick'
     jobs = []
@@ -573,6 +611,9 @@ def make_jobs(ctx):
                 stim, marks = protocol_stim(r, wa, wb, ops, -(-wa // sh) + 1)
                 jobs.append({'kind': 'complex', 'widths': [wa, wb], 'shifts': sh, 'stim': stim,
                              'marks': marks, 'exh': True})
+                jobs.append({'kind': 'complex', 'widths': [wa, wb], 'shifts': sh,
+                             'stim': history_stim(r, wa, wb, -(-wa // sh) + 1, 40)})
+            jobs.append({'kind': 'simple', 'widths': [wa, wb], 'stim': history_stim(r, wa, wb, wa + 1, 60)})
     nseq = 24 if quick else 150
     for i in range(nseq):
         r = ctx.sub_rng('seqmixed', i)
@@ -584,9 +625,13 @@ def make_jobs(ctx):
         lat = wa + 1 if kind == 'simple' else -(-wa // sh) + 1
         stim, marks = protocol_stim(r, wa, wb, ops, lat)
         jobs.append({'kind': kind, 'widths': [wa, wb], 'shifts': sh, 'stim': stim, 'marks': marks})
-        # free-running stimulus: random start pulses, operands changing (tie only)
+        # arbitrary histories: restart while busy, back-to-back starts, start held high, operands
+        # changing mid-run; every stable window after a start is checked against the protocol
+        jobs.append({'kind': kind, 'widths': [wa, wb], 'shifts': sh,
+                     'stim': history_stim(r, wa, wb, lat, 10 if wa > 40 else 24)})
+        # free-running stimulus: random start pulses, operands changing every cycle
         stim2 = [(1 if r.random() < 0.25 else 0, r.getrandbits(wa), r.getrandbits(wb)) for _ in range(40)]
-        jobs.append({'kind': kind, 'widths': [wa, wb], 'shifts': sh, 'stim': stim2, 'marks': None})
+        jobs.append({'kind': kind, 'widths': [wa, wb], 'shifts': sh, 'stim': stim2})
     return jobs
 
 
@@ -745,30 +790,46 @@ def compare_seq(ctx, col, job, res, model):
                         {'api': call, 'cycle': t, 'stimulus(start,A,B)': stim[:t + 1][-12:],
                          'impl(result,done)': list(it), 'model(result,done)': list(mt)})
             break
-    # search: the protocol of the property
-    marks = job.get('marks')
-    if not marks:
-        ctx.case((kind, sh, wa, wb, tuple(stim)), nontrivial=True)
+    # search: the protocol of the property, on EVERY stimulus: each start cycle t0 opens a window that
+    # lasts while start stays low and the operands stay those presented with the start; whatever the
+    # unit was doing before t0 (idle, busy, just started), done must rise within `bound` cycles of t0
+    # and from then on stay high with result == A*B until the window ends
+    base = label.split('[')[0]
+    if trivial:
+        for t, ((s_, a, b), (res_, dn)) in enumerate(zip(stim, trace)):
+            ctx.case((kind, wa, wb, a, b, 'comb'), nontrivial=bool(a or b))
+            if res_ != a * b or dn != 1:
+                col.add_spec(base + ':wrong-product', (size, a, b),
+                             '%s: A=%d B=%d: result %d done %d (one-bit operand path)' % (call, a, b, res_, dn),
+                             {'api': call, 'A': a, 'B': b, 'got': [res_, dn], 'expected_product': a * b})
         return
     bound = (wa + 1) if kind == 'simple' else (-(-wa // sh) + 1)
-    for mi, (t0, a, b) in enumerate(marks):
-        t_end = marks[mi + 1][0] if mi + 1 < len(marks) else len(stim) - 1
-        if trivial and mi + 1 < len(marks):
-            t_end -= 1     # combinational path: the next start cycle already shows the next product
-        ctx.case((kind, sh, wa, wb, a, b), nontrivial=bool(a or b),
+    nwin = 0
+    for (t0, t_end, a, b) in protocol_windows(stim):
+        last = min(t_end + 1, len(trace) - 1)      # the cycle after the window still shows its state
+        if last <= t0:
+            continue
+        nwin += 1
+        busy_at_start = trace[t0][1] == 0
+        ctx.count('start_issued_while', 'busy' if busy_at_start else 'idle')
+        ctx.case((kind, sh, wa, wb, a, b, busy_at_start, trace[t0][0]), nontrivial=bool(a or b),
                  sample={'generator': label, 'widths': [wa, wb], 'A': a, 'B': b,
-                         'trace(result,done)': [list(x) for x in trace[t0:t_end + 1]]}
-                 if (mi == len(marks) // 2 and wa > 2 and wb > 2) else None)
+                         'start_issued_while_busy': busy_at_start,
+                         'trace(result,done)': [list(x) for x in trace[t0:last + 1]]}
+                 if (nwin == 3 and wa > 2 and wb > 2) else None)
         first_done = None
-        for t in range(t0 + 1, t_end + 1):
+        for t in range(t0 + 1, last + 1):
             if trace[t][1] == 1:
                 first_done = t
                 break
         bad = None
-        if first_done is None or first_done - t0 > bound:
-            bad = ('late-done', 'done not raised within %d cycles of start' % bound)
+        if first_done is None:
+            if last - t0 >= bound:
+                bad = ('late-done', 'done not raised within %d cycles of start' % bound)
+        elif first_done - t0 > bound:
+            bad = ('late-done', 'done raised %d cycles after start, bound %d' % (first_done - t0, bound))
         else:
-            for t in range(first_done, t_end + 1):
+            for t in range(first_done, last + 1):
                 if trace[t][1] != 1:
                     bad = ('done-drops', 'done falls at cycle %d after being raised' % (t - t0))
                     break
@@ -776,13 +837,21 @@ def compare_seq(ctx, col, job, res, model):
                     bad = ('wrong-product', 'result %d at cycle %d after start, exact product %d' % (
                         trace[t][0], t - t0, a * b))
                     break
+        if first_done is not None:
+            ctx.count('done_latency', first_done - t0)
         if bad:
-            col.add_spec('%s:%s' % (label.split('[')[0], bad[0]), (size, a, b),
-                         '%s: A=%d B=%d: %s' % (call, a, b, bad[1]),
-                         {'api': call, 'A': a, 'B': b, 'cycles_after_start(result,done)':
-                          [list(x) for x in trace[t0:t_end + 1]], 'expected_product': a * b,
-                          'done_bound_cycles': bound})
-        ctx.count('done_latency', (first_done - t0) if first_done is not None else 'never')
+            lo = 0
+            sig = '%s:%s%s' % (base, bad[0], ':start-while-busy' if busy_at_start else '')
+            col.add_spec(sig, (size, last, a, b),
+                         '%s: start with A=%d B=%d issued while the unit was %s: %s' % (
+                             call, a, b, 'busy (done=0)' if busy_at_start else 'idle', bad[1]),
+                         {'api': call, 'A': a, 'B': b, 'start_cycle_in_history': t0 - lo,
+                          'history(start,A,B)': [list(x) for x in stim[lo:last + 1]],
+                          'observed(result,done)': [list(x) for x in trace[lo:last + 1]],
+                          'history_starts_from': 'reset state (fresh Simulation), one entry per cycle',
+                          'expected_product': a * b, 'done_bound_cycles': bound})
+    if nwin == 0:
+        ctx.case((kind, sh, wa, wb, tuple(stim)), nontrivial=True)
 
 # --------------------------------------------------------------------------- structural tie: kogge_stone
 
